@@ -284,4 +284,43 @@ example : (mergeKVs (.cons ['a'] (.map (.cons ['y'] (.int 2) .nil)) .nil)
             (.cons ['a'] (.map (.cons ['x'] (.int 1) .nil)) (.cons ['b'] (.str ['k']) .nil))).lookup ['b'] = some (.str ['k']) := by
   rw [C12_merge_lookup _ _ _ (by decide)]; rfl
 
+/-! ## soundness of the "no known reference is left" oracle -/
+
+theorem refBodyAt_sound {s body : Str} (h : refBodyAt s = some body) :
+    ∃ rest, s = '$' :: '{' :: body ++ '}' :: rest := by
+  match s, h with
+  | c :: d :: r, h =>
+    simp only [refBodyAt] at h
+    by_cases hc : c = '$' ∧ d = '{'
+    · simp only [hc, and_self, if_true] at h
+      have hj := joinClose_split r
+      cases hs : (splitOnClose r).2 with
+      | nil => simp [hs] at h
+      | cons t ts =>
+        simp only [hs, Option.some.injEq] at h
+        rw [hs, joinClose, h] at hj
+        exact ⟨joinClose t ts, by rw [hc.1, hc.2, ← hj]; rfl⟩
+    · simp [hc] at h
+
+/-- whatever the leftover oracle flags is a complete reference that really occurs in the output string (and names a
+key the provider has, by `knownRef`): a flagged output violates "every reference is replaced" -/
+theorem C12_leftover_sound (env : Env) : ∀ (s : Str) (k : Str × Str), leftoverRef env s = some k → HasCompleteRef s
+  | [], _, h => by simp [leftoverRef] at h
+  | c :: r, k, h => by
+    have lift : HasCompleteRef r → HasCompleteRef (c :: r) := fun ⟨a, b, d, e⟩ => ⟨c :: a, b, d, by rw [e]; rfl⟩
+    rw [leftoverRef] at h
+    cases hb : refBodyAt (c :: r) with
+    | none => simp only [hb] at h; exact lift (C12_leftover_sound env r k h)
+    | some body =>
+      obtain ⟨rest, hr⟩ := refBodyAt_sound hb
+      simp only [hb] at h
+      by_cases hd : hasDollar body = true
+      · simp only [hd, if_true] at h; exact lift (C12_leftover_sound env r k h)
+      · simp only [hd] at h
+        cases hk : knownRef env body with
+        | some k' => exact ⟨[], body, rest, by rw [hr]; rfl⟩
+        | none => simp only [hk] at h; exact lift (C12_leftover_sound env r k h)
+
+example : leftoverRef (exEnv .fixed) ['a', '$', '{', 'e', 'n', 'v', ':', 'X', '}'] = some (['e', 'n', 'v'], ['X']) := by decide
+
 end OtelVerif.C12
